@@ -21,8 +21,8 @@ def sh(cmd, cwd=None, timeout=900):
     except subprocess.TimeoutExpired as e:
         return 124, (e.stdout or b"").decode(errors="replace") + "\nTIMEOUT"
 
-def do_import(src, prop, letter):
-    sid = "%s-%s" % (prop, letter)
+def do_import(src, prop, letter, store=None):
+    sid = "%s-%s" % (prop, store or letter)
     diff = os.path.join(src, "mutation_%s.diff" % letter)
     demo = os.path.join(src, "tests", "demo_%s.rs" % letter)
     assert os.path.exists(diff) and os.path.exists(demo), (diff, demo)
@@ -110,7 +110,7 @@ def do_table():
 if __name__ == "__main__":
     cmd = sys.argv[1]
     if cmd == "import":
-        sys.exit(do_import(sys.argv[2], sys.argv[3], sys.argv[4]))
+        sys.exit(do_import(sys.argv[2], sys.argv[3], sys.argv[4], sys.argv[5] if len(sys.argv) > 5 else None))
     elif cmd == "run":
         do_run(sys.argv[2], sys.argv[3:])
     elif cmd == "table":
